@@ -1,4 +1,230 @@
-//! C11 — stub, not built yet.
+//! C11 — meta-evaluation is sealed and equivalent to inlining its result; compiling executes nothing
+//! outside meta blocks; eval = compile followed by run.
+//!
+//! Correspondence: every generated history (sources with meta blocks at every position, evaluated or
+//! compiled-then-run) is a `C11 sess` request: the session model must agree on every result, every
+//! intermediate interpreter state and the final bytecode.
+//! Oracle (implementation only, the property's statement):
+//!   inline     P[#( e #)] and P[the values of e, last result first] end in the same stack, variables,
+//!              output and word list (minus the constants e defines, whose uses are inlined too);
+//!   sealed     a block sees an empty stack (`#( depth #)` is 0 whatever is outside), cannot pop, read or
+//!              write anything outside (it fails, and by C10 leaves no trace);
+//!   purge      after a block closes the new words are exactly the constants it defined, and the code grew by
+//!              exactly one literal per result;
+//!   compile    `compile(S)` leaves the data stack, every variable and the output as they were (S without
+//!              printing meta blocks);
+//!   eval=c+r   `eval(S)` and `compile(S); run()` end in the same interpreter state, bytecode included.
+use crate::canon;
+use crate::progen::{gen_program, GenCfg};
+use crate::props::c10::{apply, correspondence, Op, LIMIT};
+use crate::rng::Rng;
+use crate::vmcanon;
 use crate::Ctx;
+use xeh::prelude::*;
 
-pub fn run(_ctx: &mut Ctx) {}
+fn fresh() -> Xstate {
+    let mut xs = Xstate::boot().unwrap();
+    xs.intercept_stdout(true);
+    xs.set_insn_limit(Some(LIMIT)).unwrap();
+    xs
+}
+
+/// a constant expression and the names of the constants it defines
+struct Expr { text: String, consts: Vec<String> }
+
+fn gen_expr(r: &mut Rng, depth: usize, uniq: &mut usize) -> Expr {
+    let mut consts = Vec::new();
+    let mut parts: Vec<String> = Vec::new();
+    let n = r.below(3) + 1;
+    for _ in 0..n {
+        match r.below(if depth > 0 { 9 } else { 8 }) {
+            0 => parts.push(format!("{}", r.range(-50, 50))),
+            1 => parts.push(format!("{} {} {}", r.range(0, 20), r.range(1, 20), r.pick(&["+", "-", "*", "/", "rem"]))),
+            2 => parts.push(format!("{} dup *", r.range(0, 12))),
+            3 => parts.push(format!("{} {} swap", r.range(0, 9), r.range(0, 9))),
+            4 => parts.push(format!("[ {} {} ]", r.range(0, 9), r.range(0, 9))),
+            5 => { *uniq += 1; parts.push(format!(": mw{} {} + ; {} mw{}", uniq, r.range(1, 9), r.range(0, 9), uniq)); }
+            6 => { *uniq += 1; let name = format!("mc{}", uniq); parts.push(format!("{} const {} {} 1 +", r.range(0, 99), name, name)); consts.push(name); }
+            7 => parts.push(format!("\"s{}\"", r.below(100))),
+            _ => { let inner = gen_expr(r, depth - 1, uniq); consts.extend(inner.consts); parts.push(format!("#( {} #) {} +", inner.text, r.range(0, 5))); }
+        }
+    }
+    if r.chance(15) { parts.push("drop".into()); }
+    if r.chance(10) { parts.push("3 0 do I loop".into()); }
+    Expr { text: parts.join(" "), consts }
+}
+
+fn literal(c: &Cell) -> Option<String> {
+    match c.value() {
+        Cell::Int(i) => Some(i.to_string()),
+        Cell::Str(s) => if s.chars().all(|c| c.is_ascii_alphanumeric()) { Some(format!("\"{}\"", s)) } else { None },
+        Cell::Nil => Some("nil".into()),
+        Cell::Vector(v) => { let xs: Option<Vec<String>> = v.iter().map(literal).collect(); xs.map(|xs| format!("[ {} ]", xs.join(" "))) }
+        _ => None,
+    }
+}
+
+thread_local! { static BOOT_WORDS: usize = Xstate::boot().unwrap().word_list().len(); }
+
+/// what is observable at the end of a program
+fn outcome_sig(xs: &mut Xstate, ignore_words: &[String]) -> String {
+    let d = xs.verif_dump();
+    let vars: Vec<String> = xs.var_list().iter().filter(|(n, _)| !ignore_words.iter().any(|w| w == n.as_str())).map(|(n, c)| format!("{}={}", n, canon::cell(c))).collect();
+    // the words added since boot (the boot dictionary is the same in every copy)
+    let boot = BOOT_WORDS.with(|b| *b);
+    let words: Vec<String> = xs.word_list().iter().skip(boot).map(|w| w.to_string()).filter(|w| !ignore_words.contains(w)).collect();
+    format!("ds={} hid={} rs={} loops={} mode={} nested={} flows={} vars={} out={:?} words={}",
+        d.data_visible.iter().map(canon::cell).collect::<Vec<_>>().join(","), d.data_hidden.len(), d.frames.len(), d.loops.len(), d.mode, d.nested, d.flows,
+        vars.join(","), xs.stdout().map(|s| s.clone()).unwrap_or_default(), words.join(" "))
+}
+
+/// (before, after, the hole is directly inside another meta block: results stay on its stack in evaluation order)
+const CONTEXTS: &[(&str, &str, bool)] = &[
+    ("", "", false), ("1 2", "+", false), ("[ 1", "2 ]", false), ("{ 1", "}", false), (": w1", "; w1", false), (": w2 local a", "a ; 5 w2", false),
+    ("#(", "1 #)", true), ("#( [", "] #)", false), ("true if", "then", false), ("false if 9 else", "then", false), ("3 0 do", "loop", false),
+    (": w3 #(", "#) ; w3", true), ("10 var gv gv", "gv", false), ("#( #(", "#) #)", true), ("begin", "true until", false), ("7 var gq", "! gq gq", false),
+    ("#( : mf9", "; mf9 #)", false), ("#( true if", "then #)", false), ("#( false if", "then 6 #)", false), ("#( 2 0 do", "loop #)", false), ("#( [ 1", "] #)", false), ("[ #(", "#) ]", true),
+];
+
+pub fn run(ctx: &mut Ctx) {
+    let cfg = GenCfg { endless: false, malformed_percent: 0, max_depth: 2, max_stmts: 3, ..GenCfg::default() };
+    let mut uniq = 0usize;
+    for _ in 0..ctx.n {
+        match ctx.rng.below(10) {
+            0..=4 => {
+                // ---- inline: P[#( e #)] vs P[values]
+                ctx.tag("kind:inline");
+                let e = gen_expr(&mut ctx.rng, 2, &mut uniq);
+                // the values of e, by evaluating the block alone at top level (literals re-pushed: last result first)
+                let mut probe = fresh();
+                let block = format!("#( {} #)", e.text);
+                if !matches!(crate::guarded(|| probe.eval(&block)), Some(Ok(()))) {
+                    ctx.tag("inline:expr-fails");
+                    correspondence(ctx, "C11", &[Op::Eval(block)]);
+                    continue;
+                }
+                let n = probe.data_depth();
+                let vals: Option<Vec<String>> = (0..n).rev().map(|i| probe.get_data(i).and_then(literal)).collect();
+                let vals = match vals { Some(v) => v, None => { ctx.tag("inline:no-literal-syntax"); continue; } };
+                ctx.tag(&format!("inline:results={}", n.min(4)));
+                let const_vals: Vec<(String, String)> = e.consts.iter().filter_map(|c| probe.get_var_value(c).ok().and_then(literal).map(|v| (c.clone(), v))).collect();
+                let (pre, post, inner_meta) = *ctx.rng.pick(CONTEXTS);
+                ctx.tag(&format!("ctx:{}|{}", pre, post));
+                let use_const = if !const_vals.is_empty() && ctx.rng.bool() { Some(ctx.rng.pick(&const_vals).clone()) } else { None };
+                // inside a nested meta block / a definition inside a meta block the results stay on the meta stack
+                // in evaluation order, outside they are re-emitted last result first
+                let inlined = if inner_meta { let mut v = vals.clone(); v.reverse(); v.join(" ") } else { vals.join(" ") };
+                let tail_a = use_const.as_ref().map(|(n, _)| format!(" {}", n)).unwrap_or_default();
+                let tail_b = use_const.as_ref().map(|(_, v)| format!(" {}", v)).unwrap_or_default();
+                let a_src = format!("{} {} {}{}", pre, block, post, tail_a);
+                let b_src = format!("{} {} {}{}", pre, inlined, post, tail_b);
+                let compile_run = ctx.rng.chance(30);
+                let ops_a: Vec<Op> = if compile_run { vec![Op::Compile(a_src.clone()), Op::Run] } else { vec![Op::Eval(a_src.clone())] };
+                let ops_b: Vec<Op> = if compile_run { vec![Op::Compile(b_src.clone()), Op::Run] } else { vec![Op::Eval(b_src.clone())] };
+                correspondence(ctx, "C11", &ops_a);
+                let (mut xa, mut xb) = (fresh(), fresh());
+                let ra: Vec<String> = ops_a.iter().map(|o| apply(&mut xa, o)).collect();
+                let rb: Vec<String> = ops_b.iter().map(|o| apply(&mut xb, o)).collect();
+                let (sa, sb) = (outcome_sig(&mut xa, &e.consts), outcome_sig(&mut xb, &e.consts));
+                ctx.check(ra == rb && sa == sb, || format!("C11 inline `{}` vs `{}`", a_src, b_src), || format!("{:?} {}", rb, sb), || format!("{:?} {}", ra, sa));
+                // purge: at top level the new words are exactly the constants, the code grew by one literal per result
+                if pre.is_empty() && post.is_empty() && use_const.is_none() && !compile_run {
+                    let mut x = fresh();
+                    let (w0, c0) = (x.word_list().len(), x.verif_dump().code_len);
+                    let _ = x.eval(&block);
+                    let newwords: Vec<String> = x.word_list()[w0..].iter().map(|w| w.to_string()).collect();
+                    let mut expect = e.consts.clone(); expect.sort(); expect.dedup();
+                    let mut got = newwords.clone(); got.sort(); got.dedup();
+                    let grew = x.verif_dump().code_len - c0;
+                    ctx.check(got == expect && grew == n, || format!("C11 purge `{}`", block), || format!("new words {:?}, code +{}", expect, n), || format!("new words {:?}, code +{}", newwords, grew));
+                }
+            }
+            5 | 6 => {
+                // ---- sealed
+                if ctx.rng.chance(12) {
+                    // a block nested in another block: the existing suite pins that it shares the outer block's stack
+                    // (`#( 1 #( drop #) #)` must succeed, test_meta_stack), the property says it is sealed
+                    ctx.tag("kind:sealed-nested");
+                    let (a, b) = (ctx.rng.range(0, 9), ctx.rng.range(0, 9));
+                    let inner = *ctx.rng.pick(&["depth", "drop 7", "swap", "dup"]);
+                    let src = format!("#( {} {} #( {} #) #)", a, b, inner);
+                    correspondence(ctx, "C11", &[Op::Eval(src.clone())]);
+                    let mut x = fresh();
+                    let r = apply(&mut x, &Op::Eval(src.clone()));
+                    let mut e = fresh();
+                    let re = apply(&mut e, &Op::Eval(format!("#( {} #)", inner)));
+                    // sealed would mean: the inner block does what it does on an empty stack (fails, or pushes 0 for `depth`)
+                    let sealed = if re == "ok" { r == "ok" && x.data_depth() == 2 + e.data_depth() && x.get_data(2 + e.data_depth() - 1).map(canon::cell) == e.get_data(e.data_depth().saturating_sub(1)).map(canon::cell) && inner != "depth" || (inner == "depth" && x.get_data(2).map(canon::cell) == Some("i0".into())) } else { r != "ok" };
+                    ctx.check(sealed, || format!("[nested-meta-shares-stack] C11 `{}`", src), || format!("the inner block behaves as on an empty stack ({})", re), || format!("{} depth={}", r, x.data_depth()));
+                    continue;
+                }
+                ctx.tag("kind:sealed");
+                let outer = format!("{} {} {} var sv", ctx.rng.range(0, 99), ctx.rng.range(0, 99), ctx.rng.range(0, 99));
+                let attack = *ctx.rng.pick(&["#( depth #)", "#( drop #)", "#( sv #)", "#( 5 ! sv #)", "#( swap #)", "#( dup #)", "#( 1 var mv #)", "#( .s 1 #)",
+                    "#( rot #)", "#( over #)", "#( I #)", "#( depth depth + #)", "#( #( depth #) #)", "#( [ ] length depth + #)", "#( : peek depth ; peek #)", "#( : thief drop ; thief #)"]);
+                let ops = vec![Op::Eval(outer.clone()), Op::Eval(attack.to_string())];
+                correspondence(ctx, "C11", &ops);
+                let mut x = fresh();
+                apply(&mut x, &ops[0]);
+                let before = outcome_sig(&mut x, &[]);
+                let depth0 = x.data_depth();
+                let r = apply(&mut x, &ops[1]);
+                // reference: the same block submitted to an interpreter whose stack is empty and that has no `sv`
+                let mut e = fresh();
+                let re = apply(&mut e, &ops[1]);
+                let pushed_ref: Vec<String> = (0..e.data_depth()).map(|i| e.get_data(i).map(canon::cell).unwrap_or_default()).collect();
+                if r == "ok" {
+                    // whatever it pushed is what it pushes on an empty stack; drop it and everything else is as before
+                    let pushed = x.data_depth() - depth0;
+                    let tops: Vec<String> = (0..pushed).map(|i| x.get_data(i).map(canon::cell).unwrap_or_default()).collect();
+                    for _ in 0..pushed { let _ = x.eval("drop"); }
+                    let after = outcome_sig(&mut x, &[]);
+                    let out_same = x.stdout().map(|s| s.clone()) == e.stdout().map(|s| s.clone());
+                    ctx.check(re == "ok" && tops == pushed_ref && before == after && out_same, || format!("C11 sealed `{}` then `{}`", outer, attack),
+                        || format!("{} pushed {:?}; {}", re, pushed_ref, before), || format!("{} pushed {:?}; {}", r, tops, after));
+                } else {
+                    let after = outcome_sig(&mut x, &[]);
+                    // reading or writing `sv` fails either way (unknown word there, constant context here): only the kind of result is compared
+                    let same_kind = re.split(' ').next() == r.split(' ').next();
+                    ctx.check(before == after && same_kind, || format!("C11 sealed `{}` then `{}` ({})", outer, attack, r), || format!("{}; {}", re, before), || format!("{}; {}", r, after));
+                }
+            }
+            7 => {
+                // ---- compile executes nothing outside meta blocks
+                ctx.tag("kind:compile-is-inert");
+                let setup = "1 2 3 10 var cv [ 4 ] var cw";
+                let mut src = gen_program(&mut ctx.rng, &cfg).0;
+                if ctx.rng.bool() { let e = gen_expr(&mut ctx.rng, 1, &mut uniq); src = format!("{} #( {} #) {}", src, e.text, ctx.rng.pick(&["", "drop", "! cv", "cv +"])); }
+                if ctx.rng.bool() { src = format!("{} 99 ! cv \"printed\" print drop drop", src); }
+                correspondence(ctx, "C11", &[Op::Eval(setup.to_string()), Op::Compile(src.clone())]);
+                let mut x = fresh();
+                let _ = x.eval(setup);
+                let r = apply(&mut x, &Op::Compile(src.clone()));
+                let mut y = fresh();
+                let _ = y.eval(setup);
+                let hlen = y.verif_dump().heap.len();
+                let cut = |x: &mut Xstate| { let d = x.verif_dump(); format!("ds={} heap={} out={:?}", d.data_visible.iter().chain(d.data_hidden.iter()).map(canon::cell).collect::<Vec<_>>().join(","), d.heap.iter().take(hlen).map(canon::cell).collect::<Vec<_>>().join(","), x.stdout().map(|s| s.clone()).unwrap_or_default()) };
+                let (b, a) = (cut(&mut y), cut(&mut x));
+                ctx.check(a == b, || format!("C11 compile `{}` ({})", src, r), || b.clone(), || a.clone());
+            }
+            _ => {
+                // ---- eval = compile + run
+                ctx.tag("kind:eval=compile+run");
+                let mut src = gen_program(&mut ctx.rng, &cfg).0;
+                if ctx.rng.chance(60) { let e = gen_expr(&mut ctx.rng, 1, &mut uniq); let (pre, post, _) = *ctx.rng.pick(CONTEXTS); src = format!("{} {} #( {} #) {}", src, pre, e.text, post); }
+                correspondence(ctx, "C11", &[Op::Compile(src.clone()), Op::Run]);
+                let (mut xa, mut xb) = (fresh(), fresh());
+                let ra = apply(&mut xa, &Op::Eval(src.clone()));
+                let rb = { let r = apply(&mut xb, &Op::Compile(src.clone())); if r == "ok" { apply(&mut xb, &Op::Run) } else { r } };
+                let norm = |s: String| s.replacen("rej ", "", 1).replacen("fail ", "", 1);
+                let (sa, sb) = (format!("{} code=[{}]", outcome_sig(&mut xa, &[]), vmcanon::code_str(&xa)), format!("{} code=[{}]", outcome_sig(&mut xb, &[]), vmcanon::code_str(&xb)));
+                // a run-time failure leaves the two styles in different contexts (eval keeps its own context open); compare only successful runs and rejections
+                if ra == "ok" || ra.starts_with("rej") {
+                    ctx.check(norm(ra.clone()) == norm(rb.clone()) && sa == sb, || format!("C11 eval=compile+run `{}`", src), || format!("{} {}", rb, sb), || format!("{} {}", ra, sa));
+                } else {
+                    ctx.check(norm(ra.clone()) == norm(rb.clone()), || format!("C11 eval=compile+run (result) `{}`", src), || rb.clone(), || ra.clone());
+                }
+            }
+        }
+    }
+}
